@@ -3663,9 +3663,12 @@ class Fused(Blockwise):
         graph = {self._name: (self.exprs[0]._name, index)}
         for _expr in self.exprs:
             if isinstance(_expr, Fused):
-                subgraph, name = _expr._task(index)[1:3]
+                # a nested single-partition group is broadcast like any
+                # other single-partition member
+                idx = 0 if self._broadcast_dep(_expr) else index
+                subgraph, name = _expr._task(idx)[1:3]
                 graph.update(subgraph)
-                graph[(name, index)] = name
+                graph[(name, idx)] = name
             elif self._broadcast_dep(_expr):
                 # When _expr is being broadcasted, we only
                 # want to define a fused task for index 0
